@@ -1241,7 +1241,7 @@ theorem v2_core (G : GCtx) (ok : G.OK) (fuel : Nat) (mem0 : Mem) (st0 : X.St) (h
   have haddr := ok.addr_lt _ _ _ t3
   have hlodef := ok.lo_def
   have := hcs pm hpm [] st0 (BitVec.ofNat 32 (G.env.addr (iStub + 3))) 0 mem0 G.spv (iStub + 3) .plain "_exit"
-    hg0 hm1 (fun v hv => by simp at hv) (fun j hj => by simp at hj) (by rw [hdepth]; omega) (by rw [hpo]; simp) (by omega) t3
+    hg0 hm1 (fun j hj => by simp at hj) (by rw [hdepth]; omega) (by rw [hpo]; simp) (by omega) t3
     (toNat_ofNat_lt _ haddr).symm
   cases hx : X.callUser fuel G.xc pm.p [] st0 with
   | undef w => trivial
